@@ -24,6 +24,7 @@ KNOWN = VERIF / 'known_findings.json'
 GROUPS = {
     'C01': 'harness.sched', 'C02': 'harness.sched', 'C07': 'harness.sched', 'C08': 'harness.sched',
     'C09': 'harness.sched', 'C10': 'harness.sched',
+    'C03': 'harness.compose', 'C15': 'harness.bld', 'C18': 'harness.sun',
     'C04': 'harness.prod', 'C05': 'harness.prod', 'C06': 'harness.prod', 'C13': 'harness.prod', 'C14': 'harness.prod', 'C16': 'harness.prod',
     'C11': 'harness.taskmgr', 'C12': 'harness.taskmgr', 'C17': 'harness.filters', 'C19': 'harness.getinstant', 'C20': 'harness.dst',
 }
